@@ -21,6 +21,7 @@
  */
 #define _GNU_SOURCE
 #include <errno.h>
+#include <execinfo.h>
 #include <fcntl.h>
 #include <locale.h>
 #include <signal.h>
@@ -88,6 +89,8 @@ static int arena_ok;
 
 static uint64_t seq;           /* ledger event counter */
 static uint64_t n_alloc, n_free, n_resize, n_moved, n_inplace, n_shortcut, n_reused;
+static uint64_t n_refused, refused_size; /* requests no allocator could satisfy (> REFUSE_LIMIT) */
+#define REFUSE_LIMIT ((size_t)1 << 31)
 static uint64_t sum_new, sum_old;
 static uint64_t live_bytes, max_live_bytes, live_blocks;
 static int in_ddp_realloc;
@@ -312,6 +315,12 @@ void *__wrap_realloc(void *ptr, size_t n) {
 		return __real_realloc(ptr, n);
 	}
 	/* reached from the real ddp_reallocate: n > 0, n != old size */
+	if (n > REFUSE_LIMIT) {
+		/* a legal allocator answer to an absurd request: NULL.  The runtime then ends the program with
+		   "out of memory"; the driver reports it, because no workload program ever needs 2 GiB */
+		if (n_refused++ == 0) refused_size = n;
+		return NULL;
+	}
 	if (ptr == NULL) {
 		block_t *b = slot_alloc(n);
 		b->seq_alloc = seq;
@@ -414,6 +423,21 @@ static void on_trap(int sig, siginfo_t *si, void *uctx) {
 #if defined(__x86_64__)
 	pc = (uintptr_t)((ucontext_t *)uctx)->uc_mcontext.gregs[REG_RIP];
 #endif
+	/* a trap inside libc (memcmp, memcpy, strlen ...) is attributed to the innermost frame of the program itself */
+	{
+		extern char __executable_start, etext;
+		if (!(pc >= (uintptr_t)&__executable_start && pc < (uintptr_t)&etext)) {
+			void *bt[32];
+			int n = backtrace(bt, 32);
+			for (int i = 0; i < n; i++) {
+				uintptr_t a = (uintptr_t)bt[i];
+				if (a >= (uintptr_t)&__executable_start && a < (uintptr_t)&etext && !(a >= (uintptr_t)&on_trap && a < (uintptr_t)&on_trap + 2048)) {
+					pc = a;
+					break;
+				}
+			}
+		}
+	}
 	if (in_arena(addr) && !(si->si_code == SI_KERNEL || addr == 0)) {
 		block_t *b = find_slot(addr);
 		if (b) {
@@ -439,6 +463,13 @@ static void on_trap(int sig, siginfo_t *si, void *uctx) {
 void (*__wrap_signal(int sig, void (*h)(int)))(int) {
 	if (sig == SIGSEGV || sig == SIGBUS) return SIG_DFL; /* keep the simulator's handler */
 	return __real_signal(sig, h);
+}
+
+/* with -std=c11 -D_POSIX_C_SOURCE glibc maps signal() to __sysv_signal() */
+extern void (*__real___sysv_signal(int, void (*)(int)))(int);
+void (*__wrap___sysv_signal(int sig, void (*h)(int)))(int) {
+	if (sig == SIGSEGV || sig == SIGBUS) return SIG_DFL; /* keep the simulator's handler */
+	return __real___sysv_signal(sig, h);
 }
 
 char *__wrap_setlocale(int cat, const char *loc) {
@@ -482,6 +513,7 @@ static void write_report(const char *term) {
 	fprintf(f, "{\"term\":\"%s\",\"events\":%llu,\"allocs\":%llu,\"frees\":%llu,\"resizes\":%llu,\"shortcuts\":%llu,\"moved\":%llu,\"inplace\":%llu,\"reused\":%llu,",
 	        term, (unsigned long long)seq, (unsigned long long)n_alloc, (unsigned long long)n_free, (unsigned long long)n_resize, (unsigned long long)n_shortcut,
 	        (unsigned long long)n_moved, (unsigned long long)n_inplace, (unsigned long long)n_reused);
+	fprintf(f, "\"refused\":%llu,\"refused_size\":%llu,", (unsigned long long)n_refused, (unsigned long long)refused_size);
 	fprintf(f, "\"sum_new\":%llu,\"sum_old\":%llu,\"max_live_bytes\":%llu,\"slots\":%zu,", (unsigned long long)sum_new, (unsigned long long)sum_old, (unsigned long long)max_live_bytes, nblocks);
 	fprintf(f, "\"policy\":\"place=%d fill=%d move=%d reuse=%d align=%zu locale_missing=%d\",", cfg_place, cfg_fill, cfg_move, cfg_reuse, cfg_align, cfg_locale_missing);
 	fprintf(f, "\"live\":[");
